@@ -65,10 +65,13 @@ def structSeg (lines : List String) : List String :=
     let line := match w with
       | "switchs" :: _ :: sel :: _ | "switchc" :: _ :: sel :: _ =>
         (match st.cell sel with | some id => line ++ s!" @{id}" | none => line)
+      | ["once", _, _] => line ++ s!" @{st.sp.defs.size}"       -- the number the new stream gets in S
       | _ => line
     let st := specStep st matched[i]! w
     let vals := (List.range st.sp.defs.size).filterMap fun c => (st.sp.val c).map fun v => s!"{c}:{v}"
     let p := (Struct.step p (" ".intercalate ("cellvals" :: vals))).1
+    let dones := (List.range st.sp.defs.size).filter fun c => st.sp.onceDone.get c
+    let p := (Struct.step p (" ".intercalate ("oncedone" :: dones.map toString))).1
     let (p, o) := Struct.step p line
     (st, p, outs.push o)) (({} : Spec.St), ({} : Struct.PSt), #[])
   outs.toList
